@@ -92,7 +92,7 @@ def gen_extract(rnd, pack='*'):
         emit('}')
 
     for _ in range(rnd.randint(2, 10)):
-        ctx = rnd.choice(['top', 'top', 'top', 'text', 'text', 'unkarg', 'unkenv', 'knownenv', 'item', 'comment',
+        ctx = rnd.choice(['top', 'top', 'top', 'text', 'text', 'unkarg', 'unkenv', 'knownenv', 'removedenv', 'item', 'comment',
                           'skip', 'verb', 'verbatim', 'unlisted', 'group', 'declarg', 'cell', 'usermacarg', 'math'])
         ctxs.add(ctx)
         if ctx == 'top':
@@ -115,6 +115,12 @@ def gen_extract(rnd, pack='*'):
             emit('\\begin{zzenv} ')
             listed_call(True)
             emit(' \\end{zzenv}')
+        elif ctx == 'removedenv':
+            # e.g. \\input inside a tikzpicture: the file is included by LaTeX, the macro is listed
+            name = rnd.choice(['tikzpicture', 'lstlisting']) if pack == '*' else 'zzenv'
+            emit('\\begin{' + name + '} hremQ ')
+            listed_call(True)
+            emit(' \\end{' + name + '}')
         elif ctx == 'knownenv':
             name = rnd.choice(['minipage', 'figure', 'table', 'proof'])
             emit('\\begin{' + name + '}' + ('{hQ}' if name == 'minipage' else '[hQ]' if name == 'table' else ''))
@@ -391,7 +397,7 @@ class C18(core.Check):
         q = {'extract_docs': 2000, 'listed_calls': 5000, 'include_runs': 100, 'with_skip': 20, 'extract_with_defs': 300,
              'with_define_file': 15,
              'with_self_inclusion': 20, 'include_rand': 30}
-        for c in ('top', 'unkarg', 'unkenv', 'knownenv', 'item', 'comment', 'skip', 'verb', 'verbatim', 'group',
+        for c in ('top', 'unkarg', 'unkenv', 'knownenv', 'removedenv', 'item', 'comment', 'skip', 'verb', 'verbatim', 'group',
                   'cell', 'usermacarg'):
             q['ctx_' + c] = 200
         if tier == 'thorough':
